@@ -440,8 +440,8 @@ def formulas_case(case):
         # the order M held in numpy integer types
         for mt in ('int64', 'int32', 'int16', 'uint8' if M < 256 else 'uint16'):
             vm = np.asarray(ppm.theory_BER(np.array(mus), s0, s1, getattr(np, mt)(M), dec), dtype=float); nlib += 1
-            if vm.shape != (len(mus),) or not close(vm, sc, 1e-12, 1e-300):
-                V(f'ppm.theory_BER:M-as-numpy-integer', f'{dec}: M=np.{mt}({M}) gives {vm!r}, M={M} (int) gives {sc!r}')
+            if vm.shape != vec.shape or not close(vm, vec, 1e-12, 1e-300):     # the same vector call, only the type of M differs
+                V(f'ppm.theory_BER:M-as-numpy-integer', f'{dec}: M=np.{mt}({M}) gives {vm!r}, M={M} (int) gives {vec!r}')
         outs.append((fl(vec), fl(vec3), o_))
     obs = (fl(hard), fl(soft), tuple(outs))
     return res(viol=viol, obs=obs, nontrivial=informative(hard + soft),
